@@ -24,7 +24,7 @@
 -/
 import FcProps.KTieZipChain
 import FcLemmas.KTieChainLoop
-import FcLemmas.KTieFamLoop
+import FcLemmas.KTieLoopCore
 
 set_option linter.unusedSimpArgs false
 set_option linter.unusedVariables false
